@@ -47,7 +47,10 @@ RULE = (
     'category, tracer id, tau0/tau1, model name, resolution, halfpolar, '
     'center180, dims, offsets, header unit; re-read values within rtol 4e-6 '
     'of the first read (k*2^e payload only), tau0/tau1/tracerid/category '
-    'equal.  Non-trivial: >=2 time blocks and differing layer counts, or a '
+    'equal.  (e) the scaled file sliced to its later time blocks (derived '
+    'bpch-convention file) is written and reference-decoded the same way.  '
+    '(f) pncopen(format="bpch") (bpch1 with fallback) presents the same '
+    'scaled values.  Non-trivial: >=2 time blocks and differing layer counts, or a '
     'nested offset != 1, or a scale != 1.  Distinct by sha1 of the spec.')
 ASSUMPTIONS = [
     'numpy float32 multiplication is the reference for raw x scale',
@@ -396,7 +399,13 @@ known.register(
     'C18-bpch2-one-row-table',
     lambda spec, f: (len(spec['table']) == 1 or
                      len(spec['cats']) + len(spec['diag_extra']) == 1) and
-    f.clause in ('bpch2-noscale-open', 'bpch2-scaled-open') and
+    (f.clause in ('bpch2-noscale-open', 'bpch2-scaled-open') or
+     # the registered class falls back to bpch2 where bpch1 fails (the two
+     # bpch1 findings above)
+     (f.clause == 'master-open' and
+      ((not spec['comments']) or
+       (len(spec['times']) == 2 and
+        sum(len(c['tracers']) for c in spec['cats']) == 1)))) and
     '0-d array' in f.detail and
     f.where.startswith('TypeError@geoschemfiles/_newbpch.py'))
 known.register(
@@ -503,7 +512,7 @@ def check_case(spec):
     base = libstate.scratch_path('_c18')
     din = os.path.join(base, 'in')
     path, buf = write_inputs(spec, din)
-    f0 = f1 = g0 = g1 = f2 = None
+    f0 = f1 = g0 = g1 = f2 = fm = None
     try:
         from PseudoNetCDF.geoschemfiles import bpch1, bpch2
         # ---------------- (a) unscaled read, byte-identical rewrite
@@ -591,10 +600,37 @@ def check_case(spec):
                                 lambda: quiet(bpch1, opath))
                 if ok2:
                     check_reread(r, spec, exp, f1, f2)
+        # ---------------- (e) a derived bpch-convention file (later time
+        # blocks only, as the repository test does with slice_dim) is written
+        if ok1 and ok1_clean(r) and nt >= 2:
+            okd, fs = guard(r, 'derive-slice', lambda: quiet(
+                f1.sliceDimensions, time=slice(1, None)))
+            if okd:
+                dout = os.path.join(base, 'out3')
+                os.makedirs(dout)
+                opath = os.path.join(dout, 'out.bpch')
+                wok, out = guard(r, 'derived-write', lambda: quiet(
+                    fs.save, opath, format='bpch', verbose=0))
+                if wok:
+                    if hasattr(out, 'close'):
+                        out.close()
+                    sub = dict(spec, times=spec['times'][1:],
+                               data=spec['data'][len(exp):])
+                    check_written(r, sub, variables_of(sub), opath,
+                                  tag='derived')
+                fs = None
+        # ---------------- (f) the registered reader class (bpch1 with
+        # silent fallback to bpch2) through pncopen(format='bpch')
+        import PseudoNetCDF
+        okm, fm = guard(r, 'master-open', lambda: quiet(
+            PseudoNetCDF.pncopen, path, format='bpch'))
+        if okm:
+            check_tracer_vars(r, fm, exp, 'master-scaled', True,
+                              "pncopen(format='bpch')", False)
     finally:
-        for f in (f0, f1, f2, g0, g1):
+        for f in (f0, f1, f2, g0, g1, fm):
             _close_file(f)
-        f0 = f1 = f2 = g0 = g1 = None
+        f0 = f1 = f2 = g0 = g1 = fm = None
         gc.collect()
         shutil.rmtree(base, ignore_errors=True)
     return r
@@ -661,23 +697,23 @@ def describe_diff(a, b):
     return msg
 
 
-def check_written(r, spec, exp, opath):
+def check_written(r, spec, exp, opath, tag='written'):
     with open(opath, 'rb') as fi:
         obuf = fi.read()
     try:
         dec = B.decode(obuf)
     except B.FormatError as e:
-        r.fail('written-layout', 'writer output is not a bpch file: %s' % e)
+        r.fail(tag + '-layout', 'writer output is not a bpch file: %s' % e)
         return
     want = blocks_of(spec)
     if len(dec['blocks']) != len(want):
-        r.fail('written-blocks', 'writer produced %d data blocks, expected '
+        r.fail(tag + '-blocks', 'writer produced %d data blocks, expected '
                '%d' % (len(dec['blocks']), len(want)))
         return
     if dec['ftype'].strip() != 'CTM bin 02':
-        r.fail('written-header', 'ftype %r' % dec['ftype'])
+        r.fail(tag + '-header', 'ftype %r' % dec['ftype'])
     if dec['title'].strip() != spec['title'].strip():
-        r.fail('written-header', 'title %r, expected %r' % (dec['title'],
+        r.fail(tag + '-header', 'title %r, expected %r' % (dec['title'],
                                                              spec['title']))
     per = len(exp)
     for i, (g, w) in enumerate(zip(dec['blocks'], want)):
@@ -685,20 +721,20 @@ def check_written(r, spec, exp, opath):
         for k in ('tracer', 'tau0', 'tau1', 'halfpolar', 'center180', 'dim',
                   'start'):
             if g[k] != w[k]:
-                r.fail('written-' + k, 'block %d: %s = %r, expected %r' %
+                r.fail(tag + '-' + k, 'block %d: %s = %r, expected %r' %
                        (i, k, g[k], w[k]))
         for k in ('category', 'modelname', 'unit'):
             if g[k].strip() != w[k].strip():
-                r.fail('written-' + k, 'block %d: %s = %r, expected %r' %
+                r.fail(tag + '-' + k, 'block %d: %s = %r, expected %r' %
                        (i, k, g[k], w[k]))
         if [B.f32(x) for x in w['res']] != g['res']:
-            r.fail('written-res', 'block %d: res %r, expected %r' %
+            r.fail(tag + '-res', 'block %d: res %r, expected %r' %
                    (i, g['res'], w['res']))
         if spec['mode'] == 'exact':
             got = np.frombuffer(g['data'], dtype='>f4')
             raw = np.frombuffer(w['data'], dtype='>f4')
             if not _close(got, raw, 2e-6):
-                r.fail('written-data', 'block %d (%s): written raw values '
+                r.fail(tag + '-data', 'block %d (%s): written raw values '
                        'differ from values/scale (got %s, expected %s)' % (
                            i, e['key'], got[:8], raw[:8]))
 
